@@ -1,0 +1,13 @@
+//go:build verif
+
+package PVM
+
+// verifSingleStepHandler exposes the handler table of the single-step engine (execInstructions) to the contract
+// checker in /verif as a dispatcher function, like instrMetaExecForOpcode does for the pre-decoded engine.
+// Compiled only with the `verif` build tag; the node never calls it.
+func verifSingleStepHandler(op byte) func(*Interpreter, ProgramCounter, ProgramCounter) (ExitReason, ProgramCounter) {
+	if int(op) >= len(execInstructions) {
+		return nil
+	}
+	return execInstructions[op]
+}
